@@ -9,6 +9,7 @@ step() calls on random models, on models engineered so that exactly the first k 
 the loss (k = 0 .. reject+1), and fault enumeration (the solver raises at the j-th solve of the
 run, for every j of a measured dry run).
 """
+import warnings
 import math
 
 import numpy as np
@@ -298,7 +299,15 @@ def run_history(ck, rng, hid, spec, cfg, nsteps, fail_at=None, wall=None):
         entry_loss = loss_ref(opt, model, data, target)
         prev_loss = getattr(opt, "loss", None)
         start = len(trace.events)
-        okc, ret = ck.call("protocol", regime, f"optim.{cfg['opt']}.step", lambda: opt.step(data, target=target), witness=wit)
+        def guarded_step():
+            # histories configured with warnings_as_errors run as under `python -W error`: same protocol, nothing may escape step()
+            with warnings.catch_warnings():
+                if cfg.get("warnings_as_errors"):
+                    warnings.simplefilter("error")
+                return opt.step(data, target=target)
+        if cfg.get("warnings_as_errors"):
+            ck.mark("config/warnings-as-errors")
+        okc, ret = ck.call("protocol", regime, f"optim.{cfg['opt']}.step", guarded_step, witness=wit)
         if not okc:
             return solves_total
         ev = trace.events[start:]
@@ -408,7 +417,7 @@ def run(ck):
             swept += 1
     ck.note_add("fault_points_swept", swept)
     ck.mark("faults/swept", swept)
-    ck.require("strategy/default-of-LM")
+    ck.require("strategy/default-of-LM", "config/warnings-as-errors")
     ck.require("faults/swept", "protocol/solver_raised", "increasing_trials/k=0", "increasing_trials/0<k<reject", "increasing_trials/k=reject",
                "increasing_trials/k=reject+1", "history/GN", "history/LM",
                "strategy/Adaptive/very_successful", "strategy/Adaptive/unsuccessful", "strategy/TrustRegion/very_successful",
